@@ -139,16 +139,22 @@ def tame_rule(p):
     behaviour is to run (practically) forever or to allocate without bound."""
     name, label = p.name, p.label
     if name == "combinations" and p.arity == 1:
-        return lambda t: not big_count(t[1]) and not (isinstance(num_of(t[1]), float) and math.isinf(num_of(t[1])))
+        return lambda t: num_of(t[1]) is None or (num_of(t[1]) == num_of(t[1]) and abs(num_of(t[1])) <= 64)
     if label in ("op:mul", "op:mul3", "op:str-mul-div", "op:obj-mul"):
         def ok(t):
-            vals = t[:3] if label == "op:mul3" else t[:2]
-            s = max([strlen(v) or 0 for v in vals])
-            ns = [abs(num_of(v)) for v in vals if num_of(v) is not None and not (isinstance(num_of(v), float))]
-            if s and ns:
-                tot = s * max(ns) * (s if label == "op:mul3" else 1)
-                return tot <= (1 << 17) or tot >= (1 << 63)
-            return True
+            fs = {"op:mul": [t[0], t[1]], "op:str-mul-div": [t[0], t[1]], "op:obj-mul": [t[0], t[1], t[0]]}.get(label) or [t[0], t[1], t[2]]
+            s = max([strlen(v) or 0 for v in fs])
+            if not s:
+                return True
+            tot = s
+            for v in fs:
+                x = num_of(v)
+                if x is None:
+                    continue
+                if isinstance(x, float):
+                    return True
+                tot *= max(1, abs(x))
+            return tot <= (1 << 17)
         return ok
     if name in ("jn", "yn"):
         def ok(t):
@@ -249,7 +255,8 @@ def thin(pool, per_cat, rng):
     """stratified subset: up to per_cat values of every category (first ones + random ones)"""
     by = {}
     for idx, (cat, _v) in enumerate(pool):
-        by.setdefault(cat, []).append(idx)
+        if cat != "slow":
+            by.setdefault(cat, []).append(idx)
     out = []
     for cat, idxs in by.items():
         if len(idxs) <= per_cat:
@@ -265,16 +272,21 @@ def cats(pool, names):
     return [i for i, (c, _v) in enumerate(pool) if c in names]
 
 
-def domain_slots(p, pool, rng, scale):
+def domain_slots(p, pool, rng, scale, slow_only=False):
     """family-specific products: list of index lists [inputs, slot1, slot2, ...] or None"""
     k = p.slots
-    if k < 2:
+    if slow_only:
+        if p.family != "regex" or k < 1:
+            return None
+    elif k < 2:
         return None
     S = lambda idxs, n: idxs if len(idxs) <= n else sorted(rng.sample(idxs, n))
     strs = cats(pool, {"str", "mbstr", "badutf8", "bytes"})
     nums = cats(pool, P.NUM_CATS)
     if p.family == "regex":
         re_ = cats(pool, {"regex"}) + cats(pool, {"str"})[:6]
+        if slow_only:
+            return [S(strs, 6), cats(pool, {"slow"})] + [S(cats(pool, {"flags", "null"}), 4)] * (k - 1)
         fl = cats(pool, {"flags", "null"})
         if k == 2:
             return [S(strs, int(60 * scale)), re_, fl]
